@@ -62,13 +62,19 @@ type sigCase struct {
 }
 
 var sigCases = []sigCase{
-	{"good", func(tx *bt.Tx, idx int, code []byte, sats uint64, shf byte, k, o keyPair) []byte { return signFor(tx, idx, code, sats, shf, k, false) }},
-	{"wrong-key", func(tx *bt.Tx, idx int, code []byte, sats uint64, shf byte, k, o keyPair) []byte { return signFor(tx, idx, code, sats, shf, o, false) }},
+	{"good", func(tx *bt.Tx, idx int, code []byte, sats uint64, shf byte, k, o keyPair) []byte {
+		return signFor(tx, idx, code, sats, shf, k, false)
+	}},
+	{"wrong-key", func(tx *bt.Tx, idx int, code []byte, sats uint64, shf byte, k, o keyPair) []byte {
+		return signFor(tx, idx, code, sats, shf, o, false)
+	}},
 	{"wrong-digest", func(tx *bt.Tx, idx int, code []byte, sats uint64, shf byte, k, o keyPair) []byte {
 		return signFor(tx, idx, append([]byte{0x61}, code...), sats, shf, k, false)
 	}},
 	{"empty", func(tx *bt.Tx, idx int, code []byte, sats uint64, shf byte, k, o keyPair) []byte { return []byte{} }},
-	{"high-s", func(tx *bt.Tx, idx int, code []byte, sats uint64, shf byte, k, o keyPair) []byte { return signFor(tx, idx, code, sats, shf, k, true) }},
+	{"high-s", func(tx *bt.Tx, idx int, code []byte, sats uint64, shf byte, k, o keyPair) []byte {
+		return signFor(tx, idx, code, sats, shf, k, true)
+	}},
 	{"non-der", func(tx *bt.Tx, idx int, code []byte, sats uint64, shf byte, k, o keyPair) []byte {
 		s := signFor(tx, idx, code, sats, shf, k, false)
 		// non-minimal R padding: insert a zero byte and fix the lengths (lax parsing accepts, strict DER does not)
@@ -87,7 +93,9 @@ var sigCases = []sigCase{
 		s[len(s)-1] ^= 0x40
 		return s
 	}},
-	{"garbage", func(tx *bt.Tx, idx int, code []byte, sats uint64, shf byte, k, o keyPair) []byte { return []byte{0x30, 0x01, 0x02, shf} }},
+	{"garbage", func(tx *bt.Tx, idx int, code []byte, sats uint64, shf byte, k, o keyPair) []byte {
+		return []byte{0x30, 0x01, 0x02, shf}
+	}},
 }
 
 // derFramed builds a well-framed DER signature body of exactly n bytes (n >= 8): two positive, minimally padded
@@ -383,12 +391,23 @@ func genC06(e *emitter, tier string, seed uint64) {
 				return [][]byte{k.pubC, k.pubU, hy, hyBad, g33, k.pubC[:32], {}, offCurve}
 			}
 			fsets := []int{fForkID, fForkID | fStrictEnc, fForkID | fStrictEnc | fNullFail, fAfterGenesis | fForkID | fStrictEnc, fAfterGenesis | fForkID}
+			// signatures that cannot succeed but are not malformed: the empty one, and a strictly DER-encoded one whose R is
+			// zero (passes the encoding rules, cannot be parsed into a signature) — the key's encoding is policed all the same
+			rZero := []byte{0x30, 0x06, 0x02, 0x01, 0x00, 0x02, 0x01, 0x01, 0x41}
 			for fi, pk := range forms(keys[0]) {
 				lock := append(rawPush(pk), 0xac)
 				sig := signFor(tx, idx, lock, sats, 0x41, keys[0], false)
 				for _, fl := range fsets {
 					note(fmt.Sprintf("checksig.keyform%d", fi), ixExecTx(e, fl, rawPush(sig), lock, tx, idx, sats))
 					ixExecTx(e, fl, rawPush(sig), append(append([]byte{}, lock...), 0x91), tx, idx, sats)
+					for _, hopeless := range [][]byte{{}, rZero} {
+						note(fmt.Sprintf("checksig.hopeless-sig.keyform%d", fi), ixExecTx(e, fl, rawPush(hopeless), append(append([]byte{}, lock...), 0x91), tx, idx, sats))
+						// 1-of-2 multisig, the hopeless signature tried against both keys: malformed key first, and second
+						for _, order := range [][2][]byte{{pk, keys[1].pubC}, {keys[1].pubC, pk}} {
+							ml := append(append(append([]byte{0x51}, rawPush(order[0])...), rawPush(order[1])...), 0x52, 0xae, 0x91)
+							note("multisig.hopeless-sig", ixExecTx(e, fl, append([]byte{0x00}, rawPush(hopeless)...), ml, tx, idx, sats))
+						}
+					}
 				}
 			}
 			for n := 2; n <= 3; n++ {
@@ -462,8 +481,8 @@ func genC06(e *emitter, tier string, seed uint64) {
 		//      an unparseable non-empty signature under NULLFAIL alone
 		for _, fl := range []int{fForkID, fAfterGenesis | fForkID} {
 			k2 := keys[3]
-			lockA := append(append(rawPush(k2.pubC), 0xac), 0xab)                                   // <pk> CHECKSIG CODESEPARATOR
-			lockB := append(append(append([]byte{0x51}, rawPush(k2.pubC)...), 0x51, 0xae), 0xab)     // 1 <pk> 1 CHECKMULTISIG CODESEPARATOR
+			lockA := append(append(rawPush(k2.pubC), 0xac), 0xab)                                      // <pk> CHECKSIG CODESEPARATOR
+			lockB := append(append(append([]byte{0x51}, rawPush(k2.pubC)...), 0x51, 0xae), 0xab)       // 1 <pk> 1 CHECKMULTISIG CODESEPARATOR
 			lockC := append(append(append([]byte{0x51}, rawPush(k2.pubC)...), 0x51, 0xae), 0xab, 0x61) // … CODESEPARATOR NOP
 			res := ixExecTx(e, fl, rawPush(signFor(tx, idx, lockA, sats, 0x41, k2, false)), lockA, tx, idx, sats)
 			note("trailing-sep.checksig", res)
